@@ -31,11 +31,39 @@ type HistResult struct {
 
 func caseRand(i int) int64 { return 11000000 + int64(i) }
 
+// optRand: the PRNG the option bits of history i are drawn from.
+func optRand(i int) int64 { return 11400000 + int64(i) }
+
 // isBind: every fifth history is a binding history (pool_bind.go).
-func isBind(i int) bool { return i%5 == 4 }
+func isBind(i int) bool { return i%5 == 4 && !isKeys(i) }
+
+// The KEYS histories (pool_keys.go) have numbers of their own, keysBase + k, so
+// that the other histories keep their numbers in both tiers.
+const keysBase = 200000
+
+func isKeys(i int) bool { return i >= keysBase }
+
+// nBase / nKeys: histories of the two number ranges per run.
+func nBase() int { return vh.Pick(6250, 75000) } // four in five as before the binding histories were added (5000 / 60000), one in five binding
+func nKeys() int { return vh.Pick(600, 7200) }
+
+// histID: the number of the history evaluated in slot j of a run.
+func histID(j int) int {
+	if j < nBase() {
+		return j
+	}
+	return keysBase + j - nBase()
+}
 
 func genHistory(i int, withKnown bool) *History {
-	return Generate(vh.NewRand(caseRand(i)), withKnown, isBind(i))
+	family := FamPlain
+	switch {
+	case isKeys(i):
+		family = FamKeys
+	case isBind(i):
+		family = FamBind
+	}
+	return Generate(vh.NewRand(caseRand(i)), vh.NewRand(optRand(i)), withKnown, family)
 }
 
 // RunHistory generates history i (PRNG derived from VERIF_SEED and i), runs it
@@ -43,7 +71,7 @@ func genHistory(i int, withKnown bool) *History {
 func RunHistory(i int, withKnown bool) HistResult {
 	h := genHistory(i, withKnown)
 	res := HistResult{Idx: i, Key: h.Text()}
-	input := fmt.Sprintf("history #%d (vh.NewRand(%d)): %s", i, caseRand(i), res.Key)
+	input := fmt.Sprintf("history #%d (vh.NewRand(%d); option bits vh.NewRand(%d)): %s", i, caseRand(i), optRand(i), res.Key)
 	w := NewWorld(h)
 	var helds []Held
 	changed := map[int]bool{} // held values already reported
@@ -145,6 +173,12 @@ func RunHistory(i int, withKnown bool) HistResult {
 			stat(st)
 		}
 	}
+	if isKeys(i) {
+		stat("keys_histories")
+	}
+	for _, st := range optionStats(h) {
+		stat(st)
+	}
 	if h.KnownClass(len(h.Ops)) != "" {
 		stat("histories_in_class_K-C11-sharedallof")
 	}
@@ -179,7 +213,7 @@ func bindStats(h *History) []string {
 	differ := func(a, b int) bool { // do the tables of roots a and b bind some name to different texts / only one of them binds it?
 		for n, x := range table[a] {
 			y, ok := table[b][n]
-			if !ok || h.Objs[x] != h.Objs[y] {
+			if !ok || h.Objs[x].Kind != h.Objs[y].Kind || h.Objs[x].Spec != h.Objs[y].Spec {
 				return true
 			}
 		}
@@ -239,6 +273,80 @@ func bindStats(h *History) []string {
 			}
 		}
 		out = append(out, fmt.Sprintf("bind_first_compiled_root_is_number_%d_of_%d", rank+1, len(table)))
+	}
+	return out
+}
+
+// optionStats: what a history exercises of the per-object option.
+func optionStats(h *History) []string {
+	var out []string
+	isAdded := map[int]bool{}
+	for _, op := range h.Ops {
+		if op.Code == OpAddType && op.Arg != op.Obj {
+			isAdded[op.Arg] = true
+		}
+	}
+	nOpt := 0
+	for _, o := range h.Objs {
+		if o.Kind == KSchema && o.Opt {
+			nOpt++
+		}
+	}
+	if nOpt == 0 {
+		return nil
+	}
+	out = append(out, "opt_histories_with_a_schema_object_created_with_KeysAreOptionalByDefault")
+	// pairs (strict root, lenient root) that were given one type object
+	adders := map[int][]int{}
+	for _, op := range h.Ops {
+		if op.Code == OpAddType && !isAdded[op.Obj] && op.Arg != op.Obj && h.Objs[op.Arg].Kind == KSchema {
+			adders[op.Arg] = append(adders[op.Arg], op.Obj)
+		}
+	}
+	lenientOf := map[int]map[int]bool{} // strict root -> lenient roots sharing a type object with it
+	for _, rs := range adders {
+		for _, a := range rs {
+			for _, b := range rs {
+				if !h.Objs[a].Opt && h.Objs[b].Opt {
+					if lenientOf[a] == nil {
+						lenientOf[a] = map[int]bool{}
+					}
+					lenientOf[a][b] = true
+				}
+			}
+		}
+	}
+	if len(lenientOf) == 0 {
+		return out
+	}
+	out = append(out, "opt_type_object_shared_by_a_strict_and_a_lenient_root")
+	compiled := map[int]bool{}
+	after, lacking, lenientLacking := false, false, false
+	for _, op := range h.Ops {
+		if h.Objs[op.Obj].Kind != KSchema || !compilesTarget(op.Code) {
+			continue
+		}
+		for b := range lenientOf[op.Obj] {
+			if compiled[b] {
+				after = true
+				if op.Code == OpValidate && DocLacksKey(h.Objs[op.Arg].Spec) {
+					lacking = true
+				}
+			}
+		}
+		if h.Objs[op.Obj].Opt && op.Code == OpValidate && DocLacksKey(h.Objs[op.Arg].Spec) {
+			lenientLacking = true
+		}
+		compiled[op.Obj] = true
+	}
+	if after {
+		out = append(out, "opt_strict_root_observed_after_a_lenient_root_compiled_the_shared_type")
+	}
+	if lacking {
+		out = append(out, "opt_strict_root_validates_a_document_lacking_a_key_after_a_lenient_root_compiled_the_shared_type")
+	}
+	if lenientLacking {
+		out = append(out, "opt_lenient_root_validates_a_document_lacking_a_key")
 	}
 	return out
 }
@@ -316,7 +424,7 @@ func runAll(n, workers int, withKnown, reverse bool, garbage bool) (out []HistRe
 				}
 				started[w].Store(time.Now().UnixNano())
 				current[w].Store(int64(i) + 1)
-				out[i] = RunHistory(i, withKnown)
+				out[i] = RunHistory(histID(i), withKnown)
 				current[w].Store(0)
 				if garbage && j%7 == 0 {
 					for k := 0; k < 50; k++ {
@@ -370,13 +478,13 @@ func Run(args []string) {
 			onlyMulti = true
 		}
 	}
-	n := vh.Pick(6250, 75000) // four in five as before the binding histories were added (5000 / 60000), one in five binding
+	n := nBase() + nKeys()
 	workers := runtime.GOMAXPROCS(0)
 	if child {
 		rs, to := runAll(n, workers, withKnown, false, garbage)
 		w := bufio.NewWriter(os.Stdout)
-		for _, r := range rs {
-			fmt.Fprintf(w, "D %d %s\n", r.Idx, r.Digest)
+		for j, r := range rs {
+			fmt.Fprintf(w, "D %d %s\n", j, r.Digest) // slot number (the history is histID(j))
 		}
 		if to >= 0 {
 			fmt.Fprintf(w, "TIMEOUT %d\n", to)
@@ -393,6 +501,10 @@ func Run(args []string) {
 			"objects are shared between schemas of a history (one history in three is sharing-focused: 2-3 roots with common type / rule specs, common objects nearly always shared, set-up first, fitting documents); "+
 			"one history in five is a BINDING history: 2-3 roots of the family ("+fmt.Sprint(len(bindShareds))+" shared type texts referring to @x / @y by every reference form) x ("+fmt.Sprint(len(bindBindings))+" bindings of the name per root: "+
 			"each JSON kind, two object shapes, regex type, type with a missing reference, invalid, not loading, missing) x (4 root forms) = "+fmt.Sprint(len(BindRoots()))+" root texts, ONE type object added to all roots, roots set up and compiled in any order; "+
+			"OPTION: every schema object (root or type) is created with jschema.KeysAreOptionalByDefault() or without, drawn per object (probability 1/5), the fresh objects of the oracle likewise; "+
+			"plus "+fmt.Sprint(nKeys())+" KEYS histories (numbers "+fmt.Sprint(keysBase)+"+k): 2-3 roots of the family ("+fmt.Sprint(len(keyShareds))+" shared type texts with UNMARKED keys: flat, partly marked optional true / false, nested objects / arrays of objects, "+
+			"reference to a second shared type, type owning a type, array type, keys with rules, additionalProperties) x ("+fmt.Sprint(len(keyForms))+" root forms) = "+fmt.Sprint(len(KeyRoots()))+" root texts over ONE type object, each root created with the option with probability 1/2 and each type object with 1/4, "+
+			"documents: the root's full document and every document lacking exactly one key of it at any depth; "+
 			"every result is compared with the same operation on fresh objects (same "+
 			"AddType/AddRule prefix), every handed-out value (example bytes, AST, error value, used-type slice, enum values, lexeme) is deep-copied at hand-out and re-read after EVERY later call (live and fresh-object) and at the end; whole run repeated in-process and in 3 child processes. "+
 			"MULTI-ERROR cases (keys 'multierr: …'): root + 2-4 added types with several simultaneous errors (in the root, in named types, in unnamed or-shortcut / or rule-set types, AddType failures), each input constructed from scratch "+fmt.Sprint(vh.Pick(300, 600))+
@@ -438,8 +550,8 @@ func Run(args []string) {
 	}
 	rs, to := runAll(n, workers, withKnown, false, false)
 	if to >= 0 {
-		h := genHistory(to, withKnown)
-		addDiff(vh.Diff{Component: "C11-history", Input: fmt.Sprintf("history #%d: %s", to, h.Text()), Impl: "TIMEOUT", Model: "every operation terminates"})
+		h := genHistory(histID(to), withKnown)
+		addDiff(vh.Diff{Component: "C11-history", Input: fmt.Sprintf("history #%d: %s", histID(to), h.Text()), Impl: "TIMEOUT", Model: "every operation terminates"})
 		finish()
 		return
 	}
@@ -463,9 +575,10 @@ func Run(args []string) {
 				continue
 			}
 			bad++
-			h := genHistory(i, withKnown)
+			id := histID(i)
+			h := genHistory(id, withKnown)
 			if bad > 5 {
-				addDiff(vh.Diff{Component: "C11-mapiter", Input: fmt.Sprintf("history #%d (vh.NewRand(%d)): %s", i, caseRand(i), h.Text()),
+				addDiff(vh.Diff{Component: "C11-mapiter", Input: fmt.Sprintf("history #%d (vh.NewRand(%d)): %s", id, caseRand(id), h.Text()),
 					Impl: "transcript digest differs in " + label, Model: "identical canonical results in every run", Class: h.KnownClass(len(h.Ops))})
 				continue
 			}
@@ -479,7 +592,7 @@ func Run(args []string) {
 			// try to exhibit both transcripts in-process
 			seen := map[string]string{rs[i].Digest: rs[i].Transcript}
 			for t := 0; t < 30 && len(seen) < 2; t++ {
-				r2 := RunHistory(i, withKnown)
+				r2 := RunHistory(id, withKnown)
 				seen[r2.Digest] = r2.Transcript
 			}
 			if len(seen) >= 2 {
@@ -490,7 +603,7 @@ func Run(args []string) {
 				sort.Strings(ks)
 				detail += "; differing line: " + firstDiffLine(seen[ks[0]], seen[ks[1]])
 			}
-			addDiff(vh.Diff{Component: "C11-mapiter", Input: fmt.Sprintf("history #%d (vh.NewRand(%d)): %s", i, caseRand(i), h.Text()),
+			addDiff(vh.Diff{Component: "C11-mapiter", Input: fmt.Sprintf("history #%d (vh.NewRand(%d)): %s", id, caseRand(id), h.Text()),
 				Impl: detail, Model: "identical canonical results in every run (map iteration order, scheduling, heap layout must not matter)",
 				Class: h.KnownClass(len(h.Ops))})
 		}
@@ -499,7 +612,7 @@ func Run(args []string) {
 	// second pass in the same process: other order, other worker count
 	rs2, to2 := runAll(n, imax(2, workers/3), withKnown, true, true)
 	if to2 >= 0 {
-		addDiff(vh.Diff{Component: "C11-history", Input: fmt.Sprintf("history #%d (second pass)", to2), Impl: "TIMEOUT", Model: "every operation terminates"})
+		addDiff(vh.Diff{Component: "C11-history", Input: fmt.Sprintf("history #%d (second pass)", histID(to2)), Impl: "TIMEOUT", Model: "every operation terminates"})
 		finish()
 		return
 	}
@@ -545,7 +658,7 @@ func Run(args []string) {
 func nTypeTexts(bind bool) int {
 	n := 0
 	for _, s := range Schemas {
-		if s.IsType && s.Bind == bind {
+		if s.IsType && s.Bind == bind && !s.Keys {
 			n++
 		}
 	}
